@@ -56,6 +56,11 @@ for m in mm.MUTANTS:
             for f in os.listdir(rdir):
                 if f.startswith('violation_'):
                     os.remove(os.path.join(rdir, f))
+if not ids and not name_filter:
+    with open(os.path.join(ROOT, 'mutants', 'RESULTS.txt'), 'w') as f:
+        f.write('# tools/mutation_check.py (quick tier, VERIF_SEED=%s): one line per mutant\n' % os.environ.get('VERIF_SEED', '1'))
+        for m, st_, dt in results:
+            f.write(f"{st_:16s} {m['property']} {m['name']}\n")
 surv = [m['name'] for m, s, _ in results if s != 'KILLED']
 print(f"{len(results) - len(surv)}/{len(results)} mutants killed; survivors: {surv}")
 sys.exit(1 if surv else 0)
